@@ -2,12 +2,12 @@ SPECIFICATION MCSpec
 CONSTANTS WakeAll = TRUE
  NotifyOnFail = TRUE
  NarrowLock = FALSE
- MaxWriters = 1
+ MaxWriters = 2
  MaxReaders = 2
- MaxStores = 2
- MaxCancel = 1
- MaxExpire = 1
- Duties = {d1, d2}
+ MaxStores = 3
+ MaxCancel = 0
+ MaxExpire = 0
+ Duties = {d1}
  Pks = {p1, p2}
  Vals = {a, b}
 SYMMETRY Sym
